@@ -27,6 +27,7 @@ pub struct VerifState {
     pub pid_pubrec: Vec<u64>,
     pub pid_pubcomp: Vec<u64>,
     pub need_store: bool,
+    pub new_session_at_connect: bool,
     /// serialised stored packets, in store order
     pub store: Vec<Vec<u8>>,
     pub offline_publish: bool,
@@ -82,6 +83,7 @@ where
             pid_pubrec,
             pid_pubcomp,
             need_store,
+            new_session_at_connect,
             store,
             offline_publish,
             auto_pub_response,
@@ -126,6 +128,7 @@ where
             pid_pubrec: sorted_ids(pid_pubrec),
             pid_pubcomp: sorted_ids(pid_pubcomp),
             need_store: *need_store,
+            new_session_at_connect: *new_session_at_connect,
             store: store
                 .get_stored()
                 .iter()
@@ -180,6 +183,7 @@ where
             pid_pubrec: self.pid_pubrec.clone(),
             pid_pubcomp: self.pid_pubcomp.clone(),
             need_store: self.need_store,
+            new_session_at_connect: self.new_session_at_connect,
             store: self.store.clone(),
             offline_publish: self.offline_publish,
             auto_pub_response: self.auto_pub_response,
